@@ -857,7 +857,7 @@ def scalar_template(model, modname, mode, kind, version):
     interp = Interp(model, modname, mode)
     interp.version = version
     interp.grid_as_nt = True
-    fn = model.func(modname, 'dump_scalar')
+    fn = model.func(modname, 'dump_scalar', 'nested')
     p = fn.args.args[0].arg
     idx, lad = branch_of(interp, fn, kind)
     if idx is None:
